@@ -144,6 +144,9 @@ BUILTIN_EXC_PARENTS = {
     "KeyboardInterrupt": "BaseException",
     "SystemExit": "BaseException",
     "asyncio.CancelledError": "BaseException",
+    # CancelledError that does not come from the cancellation of the awaiting caller but from asking a cancelled task
+    # for its result()/exception(): a distinct (sub)class so that rules can tell the two origins apart
+    "asyncio.CancelledError[task]": "asyncio.CancelledError",
     "ArithmeticError": "Exception",
     "ZeroDivisionError": "ArithmeticError",
     "OverflowError": "ArithmeticError",
